@@ -278,9 +278,11 @@ def c07(ctx):
 
 @prop("C05")
 def c05(ctx):
-    from .rules import dml, schema
+    from .rules import dml, schema, validity
     dml.info_key(ctx)
     dml.gate1(ctx)
+    dml.gate2(ctx)
+    validity.info_valid(ctx)
     dml.ord1(ctx)
     schema.ins1(ctx, fns=("msi::internal::query::Insert::exec",), floor=3)
     return ctx.finish(explanation="necessary conditions for unique, ordered keys and valid cells: key awareness of every function that creates cells and rewrites rows, "
@@ -289,9 +291,12 @@ def c05(ctx):
 
 @prop("C08")
 def c08(ctx):
-    from .rules import dml, codec
+    from .rules import dml, codec, flush
     dml.pairs(ctx)
     dml.cat_sym(ctx)
+    flush.dirty1(ctx)
+    flush.dirty2(ctx)
+    flush.close2(ctx)
     codec.pool_codec(ctx)
     codec.cell_codec(ctx)
     codec.codec_e(ctx)
